@@ -33,7 +33,13 @@ RULE = ('seeded histories (quick <= 6 ops, thorough <= 10) over read | save X [m
         'objects (source parse, A, B) whose optional groups (nodal, elemental, constraints) are independently empty or not, on a '
         'real temp directory; thorough additionally enumerates ALL crash points x torn x mesh-only of a second save exhaustively; '
         'a case = one operation; non-trivial = the operation changed the directory or was a read served from the cache; plus a '
-        'save->load exactness stream over uniform/mixed (incl. tet+tet2), ragged polyhedral, rank 1-3, string-valued settings')
+        'save->load exactness stream over uniform/mixed (incl. tet+tet2), ragged polyhedral, rank 1-3, string-valued settings; '
+        'in that stream 40% of the nodal / elemental / constraint variables are stored under a dict key that differs from their '
+        'FEMAttribute.name (incl. several keys sharing one name; attrs[key] = a or attrs.update({key: a})) and must load back '
+        'under the key, and half of the variables (rank 1, 2, 3) go through one public in-place update before save() '
+        '(FEMAttribute.update / FEMAttributes.update_data with allow_overwrite=True, a write through a .loc / .iloc slice, the '
+        'data_frame setter); ids, data SHAPES and values (bit patterns) of what the object reports before save() are compared '
+        'with what is loaded')
 ASSUMPTIONS = ['a process death is modelled by a BaseException raised before (or, torn, in the middle of) the k-th file effect; '
                'effects already performed are durable, in order (no reordering by the OS)',
                "settings are compared after .item(); a missing / None 'solution_type' is identified with the default 'STATIC' "
@@ -179,8 +185,38 @@ NAMES_N = ['T', 'disp', 'solids', 'grids_x', 'data_x', 'hexa', 'x_ids', 'tetra']
 NAMES_E = ['E', 'stress', 'voids', 'dataset', 'hex_flag', 'prism_ids']
 
 
+EDITS = ['update', 'update_data', 'loc', 'iloc', 'data_frame']
+
+
+def edit_in_place(r, a, how, new, attrs=None, key=None):
+    """one public in-place update of the FEMAttribute `a` (some rows get the values `new[j]`; ids and shape stay):
+    FEMAttribute.update / FEMAttributes.update_data with allow_overwrite=True, a write through a .loc / .iloc slice,
+    or the data_frame setter"""
+    n = len(a.ids)
+    rows = sorted(r.sample(range(n), len(new)))
+    ids = np.array([a.ids[j] for j in rows])
+    if how == 'update_data' and attrs is not None:
+        attrs.update_data(ids, {key: new}, allow_overwrite=True)
+    elif how in ('update', 'update_data'):
+        a.update(ids, new, allow_overwrite=True)
+    elif how == 'loc':
+        a.loc[list(ids)].data = new
+    elif how == 'iloc':
+        a.iloc[rows].data = new
+    elif how == 'data_frame':
+        df = a.data_frame.copy()
+        df.iloc[rows] = np.reshape(new, (len(rows), -1))
+        a.data_frame = df
+    else:
+        raise ValueError(how)
+
+
 def make_obj(r, tag, has_nodal_extra=True, has_elemental=True, has_constraints=True, types=None, drop_node_entry=False,
-             ranks=(1, 2, 3), time_series=False):
+             ranks=(1, 2, 3), time_series=False, edits=None):
+    """edits (a dict, filled in; exactness stream only): a share of the variables is stored under a dict key that differs
+    from its FEMAttribute.name (incl. two keys sharing one name), constraints get a second variable of rank 1 / 3, and a
+    share of the nodal / elemental / constraint variables goes through one public in-place update (EDITS) after it was
+    attached - the object that is saved is the one these calls leave behind"""
     from femio import FEMAttribute, FEMAttributes
     types = types or r.choice([['tet'], ['hex'], ['tet', 'hex'], ['tet', 'tet2'], ['hex', 'hex2', 'prism'], ['tri', 'quad'],
                                ['line', 'tet', 'pyr']])
@@ -190,14 +226,41 @@ def make_obj(r, tag, has_nodal_extra=True, has_elemental=True, has_constraints=T
     nids = fd.nodes.ids
     n = len(nids)
 
-    def arr(k, rank):
-        shape = {1: (k,), 2: (k, r.choice([1, 3])), 3: (k, 3, 3)}[rank]
+    def vals(shape):
         a = np.array([r.choice([r.randint(-9, 9) + tag / 8, r.random() * tag, -0.0, 1e300, 5e-324]) for _ in range(int(np.prod(shape)))])
         return a.reshape(shape)
+
+    def arr(k, rank):
+        return vals({1: (k,), 2: (k, r.choice([1, 3])), 3: (k, 3, 3)}[rank])
+
+    def attr_name(fam, key, pool):
+        """FEMAttribute.name of the variable stored under the dict key `key` (the key unless `edits`)"""
+        if edits is None or r.random() >= .4:
+            return key
+        name = r.choice(['shared', 'shared'] + [k for k in pool if k != key])
+        edits.setdefault('key != FEMAttribute.name', []).append([fam, key, name])
+        return name
+
+    def attach(attrs, key, attribute):
+        if edits is not None and r.random() < .5:
+            attrs.update({key: attribute})
+        else:
+            attrs[key] = attribute
+
+    def maybe_edit(fam, a, attrs=None, label=None):
+        """a share of the variables goes through one public in-place update after it was attached"""
+        if edits is None or a.time_series or r.random() >= .5:
+            return
+        how = r.choice(EDITS)
+        new = vals((r.randint(1, len(a.ids)),) + tuple(a.data.shape[1:]))
+        key = None if attrs is None else next(k for k, v in attrs.items() if v is a)
+        edit_in_place(r, a, how, new, attrs, key)
+        edits.setdefault('updated in place', []).append([fam, label or key, f'rank {len(a.data.shape)}', how])
     with contextlib.redirect_stdout(io.StringIO()):
         if has_nodal_extra:
             for name in r.sample(NAMES_N, r.randint(1, 2)):
-                fd.nodal_data[name] = FEMAttribute(name, ids=nids, data=arr(n, r.choice(ranks)), silent=True)
+                attach(fd.nodal_data, name, FEMAttribute(attr_name('nodal', name, NAMES_N), ids=nids, data=arr(n, r.choice(ranks)),
+                                                         silent=True))
             if time_series:
                 fd.nodal_data['ts'] = FEMAttribute('ts', ids=nids, data=np.stack([arr(n, 1)[:, None] for _ in range(3)]),
                                                    silent=True, time_series=True)
@@ -206,14 +269,28 @@ def make_obj(r, tag, has_nodal_extra=True, has_elemental=True, has_constraints=T
             for name in r.sample(NAMES_E, r.randint(1, 2)):
                 from femio import FEMElementalAttribute
                 rank = r.choice([2, 3])
-                fd.elemental_data[name] = FEMElementalAttribute(name, {
-                    t: FEMAttribute(name, ids=v.ids, data=arr(len(v.ids), rank), silent=True)
-                    for t, v in fd.elements.items()})
+                aname = attr_name('elemental', name, NAMES_E)
+                attach(fd.elemental_data, name, FEMElementalAttribute(aname, {
+                    t: FEMAttribute(aname, ids=v.ids, data=arr(len(v.ids), rank), silent=True)
+                    for t, v in fd.elements.items()}))
         if has_constraints:
             sel = np.array(sorted(r.sample([int(i) for i in nids], r.randint(1, n))))
             d = arr(len(sel), 2)
             d = np.where(np.arange(d.size).reshape(d.shape) % 3 == 0, np.nan, d)
-            fd.constraints['boundary'] = FEMAttribute('boundary', ids=sel, data=d, silent=True)
+            attach(fd.constraints, 'boundary', FEMAttribute(attr_name('constraints', 'boundary', ['cload']), ids=sel, data=d, silent=True))
+            if edits is not None and r.random() < .6:
+                sel = np.array(r.sample([int(i) for i in nids], r.randint(1, n)))
+                attach(fd.constraints, 'cload', FEMAttribute(attr_name('constraints', 'cload', ['boundary']), ids=sel,
+                                                             data=arr(len(sel), r.choice([1, 3])), silent=True))
+        if edits is not None:
+            for k, a in list(fd.nodal_data.items()):
+                if k != 'NODE':
+                    maybe_edit('nodal', a, fd.nodal_data)
+            for k, ea in list(fd.elemental_data.items()):
+                for t, a in ea.items():
+                    maybe_edit('elemental', a, None, f'{k}[{t}]')
+            for k, a in list(fd.constraints.items()):
+                maybe_edit('constraints', a, fd.constraints)
         fd.settings.update({'tag': tag, 'label': f'run {tag} / a b', 'scale': 1.5 * tag, 'flag': bool(tag % 2)})
         if r.random() < .5:
             fd.settings['solution_type'] = r.choice(['HEAT', 'STATIC'])
@@ -371,8 +448,10 @@ def exactness(ctx, k):
     """save -> load reproduces every group exactly"""
     from femio import FEMData
     r = ctx.rng
+    state = r.getstate()      # the whole case is a function of (k, this state): kept in the case for the replay
     d = ctx.tmp / f'x{k}'
     d.mkdir(parents=True)
+    edits = {}
     ts = r.random() < .12
     poly = (not ts) and r.random() < .15
     if poly:
@@ -382,14 +461,21 @@ def exactness(ctx, k):
         kind = 'polyhedron'
     else:
         fd, m = make_obj(r, 4 + k % 5, has_nodal_extra=r.random() < .85, has_elemental=r.random() < .7,
-                         has_constraints=r.random() < .5, time_series=ts)
+                         has_constraints=r.random() < .5, time_series=ts, edits=edits)
         kind = '+'.join(m['blocks'])
     key_tie(ctx, fd)
     want = digest(fd)
     case = {'kind': kind, 'time_series': ts, 'nodal': list(fd.nodal_data.keys()), 'elemental': list(fd.elemental_data.keys()),
-            'mesh': mg.to_json(m), 'seed_note': 're-run the check with the same VERIF_SEED to rebuild the object'}
-    ctx.case(('exact', k), sample={k2: case[k2] for k2 in ('kind', 'time_series', 'nodal', 'elemental')}, nontrivial=True)
+            'constraints': list(fd.constraints.keys()), **edits,
+            'shapes': {g: {k2: list(np.shape(v.data)) for k2, v in getattr(fd, g).items()} for g in ('nodal_data', 'constraints')},
+            'mesh': mg.to_json(m), 'exactness_case': k, 'rng_state': [state[0], list(state[1]), state[2]]}
+    ctx.case(('exact', k), sample={k2: case[k2] for k2 in ('kind', 'time_series', 'nodal', 'elemental', 'constraints', *edits)},
+             nontrivial=True)
     ctx.count('exactness:' + ('time-series' if ts else 'polyhedron' if poly else ('mixed' if '+' in kind else 'uniform')))
+    for fam, key, name in edits.get('key != FEMAttribute.name', []):
+        ctx.count(f'exactness: key != FEMAttribute.name: {fam}' + (' (shared name)' if name == 'shared' else ''))
+    for fam, key, rank, how in edits.get('updated in place', []):
+        ctx.count(f'exactness: updated in place before save: {fam} {rank} by {how}')
     try:
         with contextlib.redirect_stdout(io.StringIO()):
             fd.save(d)
@@ -402,9 +488,31 @@ def exactness(ctx, k):
     got = digest(back)
     for g in want:
         if got[g] != want[g]:
-            ctx.fail(f'load-differs:{g}' + (':time-series' if ts else ''), f'save -> load changed the {g} of a {kind} mesh', case,
-                     {'want': repr(want[g])[:400], 'got': repr(got[g])[:400]})
+            ctx.fail(f'load-differs:{g}' + (':time-series' if ts else ''), f'save -> load changed the {g} of a {kind} mesh'
+                     + first_diff(want[g], got[g]), case, {'want': repr(want[g])[:400], 'got': repr(got[g])[:400]})
             return
+
+
+def first_diff(want, got):
+    """which variable differs and how (keys / ids / data shape / values), for the message"""
+    if not (isinstance(want, dict) and isinstance(got, dict)):
+        return ''
+    if sorted(want) != sorted(got):
+        return f': variables saved {sorted(want)}, loaded {sorted(got)}'
+    k = next(k for k in want if want[k] != got[k])
+    w, g = want[k], got[k]
+    if isinstance(w, dict):      # elemental: per element type
+        if sorted(w) != sorted(g):
+            return f': {k!r} saved for types {sorted(w)}, loaded for {sorted(g)}'
+        t = next(t for t in w if w[t] != g[t])
+        k, w, g = f'{k}[{t}]', w[t], g[t]
+    if not (isinstance(w, tuple) and len(w) == 2 and isinstance(w[1], tuple)):
+        return f': {k!r}'
+    if w[0] != g[0]:
+        return f': ids of {k!r} differ'
+    if w[1][1] != g[1][1]:
+        return f': data of {k!r} had shape {w[1][1]} when saved, {g[1][1]} after loading'
+    return f': values of {k!r} differ'
 
 
 def key_tie(ctx, fd):
@@ -512,6 +620,14 @@ def run(ctx):
 
 def replay(ctx, obj):
     case = obj['input']
+    if 'history' not in case and 'rng_state' in case:
+        # exactness case: rebuild the object from the generator state it was drawn with, save -> load -> compare again
+        v, internal, gauss = case['rng_state']
+        ctx.rng.setstate((v, tuple(internal), gauss))
+        before = len(ctx.failures)
+        exactness(ctx, case['exactness_case'])
+        new = [{k: f[k] for k in ('signature', 'what', 'observed')} for f in ctx.failures[before:]]
+        return {'case': {k: v for k, v in case.items() if k not in ('rng_state', 'mesh')}, 'failures': new, 'fails': bool(new)}
     if 'history' not in case:
         return {'fails': False, 'note': 'exactness case: re-run ./check C05 with VERIF_SEED=%s' % obj.get('seed')}
     before = len(ctx.failures)
